@@ -440,6 +440,11 @@ where
             TokenKind::Keyword((Keyword::Await, false)) => {
                 // Check if this is `await using`
                 // Per spec, there must be [no LineTerminator here] between `await` and `using`
+                // NOTE: Where `await` is an identifier, a `/` that follows it is a division and must
+                //       not be read (and buffered) as the start of a regular expression literal.
+                if !self.allow_await.0 {
+                    cursor.set_goal(InputElement::Div);
+                }
                 if let Some(next_tok) = cursor.peek_no_skip_line_term(1, interner)?
                     && next_tok.kind() != &TokenKind::LineTerminator
                     && matches!(next_tok.kind(), TokenKind::Keyword((Keyword::Using, false)))
